@@ -270,30 +270,61 @@ def run_linear(p):
             v.append(V('linear', 'flat run from a %.0e perturbation of %s returned False' % (p['eps'], p['case']), what='run_false'))
             return v, probes, ['linear', 'run-false']
         t = np.array(ss.dae.ts.t)
-        X = ss.dae.ts.x
-        sel = [i for i in range(len(t)) if t[i] > t0 + 1e-9]
-        sel = sel[::max(1, len(sel) // 12)]
-        err = 0.0
-        resp = 0.0
-        for i in sel:
-            ref = xs + expm(A * (t[i] - t0)) @ d0
-            err = max(err, float(np.max(np.abs(X[i] - ref))))
-            resp = max(resp, float(np.max(np.abs(ref - xs))))
-        errs.append({'h': h, 'err': err, 'resp': resp})
+        X = np.array(ss.dae.ts.x)
+        k0 = int(np.where(t >= t0 - 1e-15)[0][0])
+        # reference 1: the matrix exponential (exact linear response); reference 2: the integration rule itself applied to the
+        # linearisation on the time stamps actually produced -- x+ = (I - hA)^-1 x (backward Euler), (I - hA/2)^-1 (I + hA/2) x (trapezoid).
+        # The run must follow reference 2 up to second-order terms; its distance to reference 1 is then the rule's own discretisation
+        # error (numerical damping of backward Euler, ringing of stiff modes under the trapezoidal rule included).
+        eye = np.eye(len(A))
+        xd = d0.copy()
+        err = e_lin = e_th = resp = 0.0
+        worst = None
+        hs = np.diff(t[k0:])
+        for k in range(k0, len(t) - 1):
+            hk = t[k + 1] - t[k]
+            if p['method'] == 'backeuler':
+                xd = np.linalg.solve(eye - hk * A, xd)
+            else:
+                xd = np.linalg.solve(eye - hk / 2 * A, (eye + hk / 2 * A) @ xd)
+            ex = expm(A * (t[k + 1] - t0)) @ d0 if (k - k0) % max(1, (len(t) - k0) // 12) == 0 or k == len(t) - 2 else None
+            dev = np.abs(X[k + 1] - xs - xd)
+            j = int(np.argmax(dev))
+            if dev[j] > e_lin:
+                e_lin, worst = float(dev[j]), (ss.dae.x_name[j], float(t[k + 1]))
+            if ex is not None:
+                err = max(err, float(np.max(np.abs(X[k + 1] - xs - ex))))
+                e_th = max(e_th, float(np.max(np.abs(xd - ex))))
+                resp = max(resp, float(np.max(np.abs(ex))))
+        errs.append({'h': h, 'err': err, 'resp': resp, 'e_lin': e_lin, 'e_th': e_th, 'worst': worst,
+                     'h_max': float(hs.max()) if len(hs) else 0.0, 'n_steps': int(len(hs)), 'span': float(t[-1] - t0)})
     probes['linear_compared'] = 1
     probes['backeuler'] = int(p['method'] == 'backeuler')
     e1, e2 = errs[0]['err'], errs[1]['err']
     resp = errs[0]['resp']
     floor = 2 * resp ** 2 + 50 * p['eps'] ** 2 + 1e-10      # second-order terms of the real (nonlinear) system scale with the response
-    factor = 0.45 if p['method'] == 'trapezoid' else 0.75
-    if e1 > 20 * floor:
-        probes['order_ratio_measured'] = 1
-        if e2 > factor * e1 + 10 * floor:
-            v.append(V('linear', '%s: deviation from expm(A t) d does not shrink with the step: %.3g at h=%.4g, %.3g at h/2 (response %.3g, %s)' %
-                       (p['case'], e1, errs[0]['h'], e2, resp, p['method']), what='no_convergence', method=p['method']))
-    if e1 > 0.5 * resp + 10 * floor:
-        v.append(V('linear', '%s: deviation %.3g from the linear response (size %.3g) at h=%.4g (%s)' % (p['case'], e1, resp, errs[0]['h'], p['method']),
-                   what='far_from_reference', method=p['method']))
+    for e in errs:
+        # (a) the run is the integration rule applied to the linearisation, up to second-order terms
+        if e['e_lin'] > 5 * floor:
+            v.append(V('linear', '%s: at h=%.4g the run deviates by %.3g (at %s) from the %s rule applied to its own linearisation on the '
+                       'same time stamps (response %.3g, allowed %.3g)' % (p['case'], e['h'], e['e_lin'], e['worst'], p['method'], resp, 5 * floor),
+                       what='deviates_from_discrete_linear', method=p['method']))
+            break
+        # (b) the steps taken are the steps requested (fixed step): none larger, and as many as the interval holds
+        if e['h_max'] > e['h'] * (1 + 1e-9) or e['n_steps'] < int(e['span'] / e['h']) - 1:
+            v.append(V('linear', '%s: requested fixed step %.6g, largest step taken %.6g, %d steps over %.3g s' %
+                       (p['case'], e['h'], e['h_max'], e['n_steps'], e['span']), what='requested_step_not_used', method=p['method']))
+            break
+    # (c) convergence: the distance to the exact linear response is the rule's own discretisation error, which must shrink with the step
+    if not v:
+        probes['order_ratio_measured'] = int(e1 > 20 * floor)
+        if abs(e1 - errs[0]['e_th']) > 0.1 * errs[0]['e_th'] + 10 * floor or abs(e2 - errs[1]['e_th']) > 0.1 * errs[1]['e_th'] + 10 * floor:
+            v.append(V('linear', '%s: deviation from expm(A t) d is %.3g / %.3g at h / h/2, the rule\'s own discretisation error on the '
+                       'linearisation is %.3g / %.3g (%s)' % (p['case'], e1, e2, errs[0]['e_th'], errs[1]['e_th'], p['method']),
+                       what='not_the_discretisation_error', method=p['method']))
+        elif e1 > 20 * floor and e2 > e1 + 10 * floor:
+            v.append(V('linear', '%s: deviation from expm(A t) d grows when the step is halved: %.3g at h=%.4g, %.3g at h/2 (%s)' %
+                       (p['case'], e1, errs[0]['h'], e2, p['method']), what='no_convergence', method=p['method']))
     return v, probes, ['linear', p['case'], p['method'], round(p['tstep'], 4)]
 
 
